@@ -120,6 +120,43 @@ impl<'s> Semantics<'s> {
         Ok(())
     }
 
+    /// The count of a shift or rotate as the processor uses it: masked to 5
+    /// bits (6 bits for a 64-bit operand) and brought to `bits` bits.
+    fn shift_count(&self, count: Expression, bits: usize) -> Result<Expression, Error> {
+        let mask = if bits == 64 { 0x3f } else { 0x1f };
+        let count = Expr::and(count.clone(), expr_const(mask, count.bits()))?;
+        match count.bits().cmp(&bits) {
+            std::cmp::Ordering::Less => Expr::zext(bits, count),
+            std::cmp::Ordering::Greater => Expr::trun(bits, count),
+            std::cmp::Ordering::Equal => Ok(count),
+        }
+    }
+
+    /// The most significant bit of an expression
+    fn sign_bit(&self, expr: Expression) -> Result<Expression, Error> {
+        Expr::trun(
+            1,
+            Expr::shr(expr.clone(), expr_const(expr.bits() as u64 - 1, expr.bits()))?,
+        )
+    }
+
+    /// Assigns a flag the way shifts and rotates do: a (masked) count of zero
+    /// leaves the flag alone.
+    fn set_flag_if_shifted(
+        &self,
+        block: &mut Block,
+        flag: &str,
+        count: &Expression,
+        value: Expression,
+    ) -> Result<(), Error> {
+        let not_shifted = Expr::cmpeq(count.clone(), expr_const(0, count.bits()))?;
+        block.assign(
+            scalar(flag, 1),
+            Expr::ite(not_shifted, expr_scalar(flag, 1), value)?,
+        );
+        Ok(())
+    }
+
     /// Returns a condition which is true if a conditional instruction should be
     /// executed. Used for setcc, jcc and cmovcc.
     pub fn cc_condition(&self) -> Result<Expression, Error> {
@@ -3344,63 +3381,32 @@ impl<'s> Semantics<'s> {
         let block_index = {
             let block = control_flow_graph.new_block()?;
 
-            // get operands
+            // get operands; the processor masks the count to 5 (6) bits, and
+            // rotates by that count modulo the operand size
             let lhs = self.operand_load(block, &detail.operands[0])?;
             let count = self.operand_load(block, &detail.operands[1])?;
-
-            let mut count = match lhs.bits() {
-                8 => Expr::and(count.clone(), expr_const(0x7, count.bits()))?,
-                16 => Expr::and(count.clone(), expr_const(0xf, count.bits()))?,
-                32 => Expr::and(count.clone(), expr_const(0x1f, count.bits()))?,
-                64 => Expr::and(count.clone(), expr_const(0x3f, count.bits()))?,
-                _ => {
-                    return Err(Error::Custom(format!(
-                        "Unsupported rol bits {}",
-                        count.bits()
-                    )))
-                }
-            };
-
-            if count.bits() < lhs.bits() {
-                count = Expr::zext(lhs.bits(), count)?;
-            }
-
-            let shift_left_bits = count;
-            let shift_right_bits = Expr::sub(
+            let count = self.shift_count(count, lhs.bits())?;
+            let rotate_bits = Expr::and(
+                count.clone(),
+                expr_const(lhs.bits() as u64 - 1, lhs.bits()),
+            )?;
+            let opposite_bits = Expr::sub(
                 expr_const(lhs.bits() as u64, lhs.bits()),
-                shift_left_bits.clone(),
+                rotate_bits.clone(),
             )?;
 
             let result = Expr::or(
-                Expr::shl(lhs.clone(), shift_left_bits)?,
-                Expr::shr(lhs, shift_right_bits)?,
+                Expr::shl(lhs.clone(), rotate_bits)?,
+                Expr::shr(lhs, opposite_bits)?,
             )?;
 
-            // CF is the bit sent from one end to the other. In our case, it should be LSB of result
-            block.assign(scalar("CF", 1), Expr::trun(1, result.clone())?);
-
-            // OF is XOR of two most-significant bits of result
-            block.assign(
-                scalar("OF", 1),
-                Expr::xor(
-                    Expr::trun(
-                        1,
-                        Expr::shr(
-                            result.clone(),
-                            expr_const(result.bits() as u64 - 1, result.bits()),
-                        )?,
-                    )?,
-                    Expr::trun(
-                        1,
-                        Expr::shr(
-                            result.clone(),
-                            expr_const(result.bits() as u64 - 2, result.bits()),
-                        )?,
-                    )?,
-                )?,
-            );
-
-            // SF/ZF are unaffected
+            // CF is the bit sent from one end to the other: the LSB of the
+            // result. OF (count==1) is the MSB of the result XOR CF. A masked
+            // count of zero leaves the flags alone; SF/ZF are unaffected.
+            let cf = Expr::trun(1, result.clone())?;
+            let of = Expr::xor(self.sign_bit(result.clone())?, cf.clone())?;
+            self.set_flag_if_shifted(block, "CF", &count, cf)?;
+            self.set_flag_if_shifted(block, "OF", &count, of)?;
 
             self.operand_store(block, &detail.operands[0], result)?;
 
@@ -3419,72 +3425,42 @@ impl<'s> Semantics<'s> {
         let block_index = {
             let block = control_flow_graph.new_block()?;
 
-            // get operands
+            // get operands; the processor masks the count to 5 (6) bits, and
+            // rotates by that count modulo the operand size
             let lhs = self.operand_load(block, &detail.operands[0])?;
             let count = self.operand_load(block, &detail.operands[1])?;
-
-            let mut count = match lhs.bits() {
-                8 => Expr::and(count.clone(), expr_const(0x7, count.bits()))?,
-                16 => Expr::and(count.clone(), expr_const(0xf, count.bits()))?,
-                32 => Expr::and(count.clone(), expr_const(0x1f, count.bits()))?,
-                64 => Expr::and(count.clone(), expr_const(0x3f, count.bits()))?,
-                _ => {
-                    return Err(Error::Custom(format!(
-                        "Unsupported ror bits {}",
-                        count.bits()
-                    )))
-                }
-            };
-
-            if count.bits() < lhs.bits() {
-                count = Expr::zext(lhs.bits(), count)?;
-            }
-
-            let shift_right_bits = count;
-            let shift_left_bits = Expr::sub(
+            let count = self.shift_count(count, lhs.bits())?;
+            let rotate_bits = Expr::and(
+                count.clone(),
+                expr_const(lhs.bits() as u64 - 1, lhs.bits()),
+            )?;
+            let opposite_bits = Expr::sub(
                 expr_const(lhs.bits() as u64, lhs.bits()),
-                shift_right_bits.clone(),
+                rotate_bits.clone(),
             )?;
 
             let result = Expr::or(
-                Expr::shl(lhs.clone(), shift_left_bits)?,
-                Expr::shr(lhs, shift_right_bits)?,
+                Expr::shl(lhs.clone(), opposite_bits)?,
+                Expr::shr(lhs, rotate_bits)?,
             )?;
 
-            // CF is the bit sent from one end to the other. In our case, it should be MSB of result
-            block.assign(
-                scalar("CF", 1),
+            // CF is the bit sent from one end to the other: the MSB of the
+            // result. OF (count==1) is the XOR of the two most significant bits
+            // of the result. A masked count of zero leaves the flags alone;
+            // SF/ZF are unaffected.
+            let cf = self.sign_bit(result.clone())?;
+            let of = Expr::xor(
+                cf.clone(),
                 Expr::trun(
                     1,
                     Expr::shr(
                         result.clone(),
-                        expr_const(result.bits() as u64 - 1, result.bits()),
+                        expr_const(result.bits() as u64 - 2, result.bits()),
                     )?,
                 )?,
-            );
-
-            // OF is XOR of two most-significant bits of result
-            block.assign(
-                scalar("OF", 1),
-                Expr::xor(
-                    Expr::trun(
-                        1,
-                        Expr::shr(
-                            result.clone(),
-                            expr_const(result.bits() as u64 - 1, result.bits()),
-                        )?,
-                    )?,
-                    Expr::trun(
-                        1,
-                        Expr::shr(
-                            result.clone(),
-                            expr_const(result.bits() as u64 - 2, result.bits()),
-                        )?,
-                    )?,
-                )?,
-            );
-
-            // SF/ZF are unaffected
+            )?;
+            self.set_flag_if_shifted(block, "CF", &count, cf)?;
+            self.set_flag_if_shifted(block, "OF", &count, of)?;
 
             // store result
             self.operand_store(block, &detail.operands[0], result)?;
@@ -3531,37 +3507,30 @@ impl<'s> Semantics<'s> {
         let block_index = {
             let block = control_flow_graph.new_block()?;
 
-            // get operands
+            // get operands; the processor masks the count to 5 (6) bits
             let lhs = self.operand_load(block, &detail.operands[0])?;
-            let mut rhs = self.operand_load(block, &detail.operands[1])?;
-
-            if lhs.bits() != rhs.bits() {
-                rhs = Expr::zext(lhs.bits(), rhs)?;
-            }
+            let count = self.operand_load(block, &detail.operands[1])?;
+            let rhs = self.shift_count(count, lhs.bits())?;
 
             // Do the SAR
             let expr = Expr::ashr(lhs.clone(), rhs.clone())?;
 
-            // CF is the last bit shifted out
-            // This will give us a bit mask if rhs is not equal to zero
-            let non_zero_mask = Expr::sub(
-                expr_const(0, rhs.bits()),
-                Expr::zext(
-                    rhs.bits(),
-                    Expr::cmpneq(rhs.clone(), expr_const(0, rhs.bits()))?,
-                )?,
+            // CF is the last bit shifted out: lhs shifted right arithmetically
+            // by (rhs - 1). A count of zero leaves every flag alone.
+            let cf = Expr::trun(
+                1,
+                Expr::ashr(lhs, Expr::sub(rhs.clone(), expr_const(1, rhs.bits()))?)?,
             )?;
-            // This shifts lhs right by (rhs - 1)
-            let cf = Expr::shr(lhs, Expr::sub(rhs.clone(), expr_const(1, rhs.bits()))?)?;
-            // Apply mask
-            let cf = Expr::trun(1, Expr::and(cf, non_zero_mask)?)?;
-            block.assign(scalar("CF", 1), cf);
-
-            // OF is the last bit shifted out
-            block.assign(scalar("OF", 1), expr_const(0, 1));
-
-            self.set_zf(block, expr.clone())?;
-            self.set_sf(block, expr.clone())?;
+            self.set_flag_if_shifted(block, "CF", &rhs, cf)?;
+            // OF (count==1) is cleared
+            self.set_flag_if_shifted(block, "OF", &rhs, expr_const(0, 1))?;
+            self.set_flag_if_shifted(
+                block,
+                "ZF",
+                &rhs,
+                Expr::cmpeq(expr.clone(), expr_const(0, expr.bits()))?,
+            )?;
+            self.set_flag_if_shifted(block, "SF", &rhs, self.sign_bit(expr.clone())?)?;
 
             self.operand_store(block, &detail.operands[0], expr)?;
 
@@ -3780,48 +3749,29 @@ impl<'s> Semantics<'s> {
         let block_index = {
             let block = control_flow_graph.new_block()?;
 
-            // get operands
+            // get operands; the processor masks the count to 5 (6) bits
             let lhs = self.operand_load(block, &detail.operands[0])?;
-            let mut rhs = self.operand_load(block, &detail.operands[1])?;
-
-            if lhs.bits() != rhs.bits() {
-                rhs = Expr::zext(lhs.bits(), rhs)?;
-            }
+            let count = self.operand_load(block, &detail.operands[1])?;
+            let rhs = self.shift_count(count, lhs.bits())?;
 
             // Do the SHL
             let expr = Expr::shl(lhs.clone(), rhs.clone())?;
 
-            // CF is the last bit shifted out
-            // This will give us a bit mask if rhs is not equal to zero
-            let non_zero_mask = Expr::sub(
-                expr_const(0, rhs.bits()),
-                Expr::zext(
-                    rhs.bits(),
-                    Expr::cmpneq(rhs.clone(), expr_const(0, rhs.bits()))?,
-                )?,
-            )?;
-            // Shift lhs left by (rhs - 1), putting the last-shifted-out bit at the MSB
+            // CF is the last bit shifted out: shift lhs left by (rhs - 1) and
+            // take the MSB. A count of zero leaves every flag alone.
             let cf = Expr::shl(lhs, Expr::sub(rhs.clone(), expr_const(1, rhs.bits()))?)?;
-            // Extract MSB (shift right by bits-1), then apply non-zero mask
-            let cf = Expr::shr(cf.clone(), expr_const(cf.bits() as u64 - 1, cf.bits()))?;
-            let cf = Expr::trun(1, Expr::and(cf, non_zero_mask)?)?;
-            block.assign(scalar("CF", 1), cf.clone());
-
+            let cf = self.sign_bit(cf)?;
             // OF (count==1): OF = MSB(result) XOR CF
-            let of = Expr::xor(
-                cf,
-                Expr::trun(
-                    1,
-                    Expr::shr(
-                        expr.clone(),
-                        expr_const(expr.bits() as u64 - 1, expr.bits()),
-                    )?,
-                )?,
+            let of = Expr::xor(cf.clone(), self.sign_bit(expr.clone())?)?;
+            self.set_flag_if_shifted(block, "CF", &rhs, cf)?;
+            self.set_flag_if_shifted(block, "OF", &rhs, of)?;
+            self.set_flag_if_shifted(
+                block,
+                "ZF",
+                &rhs,
+                Expr::cmpeq(expr.clone(), expr_const(0, expr.bits()))?,
             )?;
-            block.assign(scalar("OF", 1), of);
-
-            self.set_zf(block, expr.clone())?;
-            self.set_sf(block, expr.clone())?;
+            self.set_flag_if_shifted(block, "SF", &rhs, self.sign_bit(expr.clone())?)?;
 
             self.operand_store(block, &detail.operands[0], expr)?;
 
@@ -3840,46 +3790,34 @@ impl<'s> Semantics<'s> {
         let block_index = {
             let block = control_flow_graph.new_block()?;
 
-            // get operands
+            // get operands; the processor masks the count to 5 (6) bits
             let lhs = self.operand_load(block, &detail.operands[0])?;
-            let mut rhs = self.operand_load(block, &detail.operands[1])?;
-
-            if lhs.bits() != rhs.bits() {
-                rhs = Expr::zext(lhs.bits(), rhs)?;
-            }
+            let count = self.operand_load(block, &detail.operands[1])?;
+            let rhs = self.shift_count(count, lhs.bits())?;
 
             // Do the SHR
             let expr = Expr::shr(lhs.clone(), rhs.clone())?;
 
-            // CF is the last bit shifted out
-            // This will give us a bit mask if rhs is not equal to zero
-            let non_zero_mask = Expr::sub(
-                expr_const(0, rhs.bits()),
-                Expr::zext(
-                    rhs.bits(),
-                    Expr::cmpneq(rhs.clone(), expr_const(0, rhs.bits()))?,
+            // CF is the last bit shifted out: lhs shifted right by (rhs - 1).
+            // A count of zero leaves every flag alone.
+            let cf = Expr::trun(
+                1,
+                Expr::shr(
+                    lhs.clone(),
+                    Expr::sub(rhs.clone(), expr_const(1, rhs.bits()))?,
                 )?,
             )?;
-            // This shifts lhs right by (rhs - 1)
-            let cf = Expr::shr(
-                lhs.clone(),
-                Expr::sub(rhs.clone(), expr_const(1, rhs.bits()))?,
+            // OF (count==1) is the most significant bit of the original operand
+            let of = self.sign_bit(lhs)?;
+            self.set_flag_if_shifted(block, "CF", &rhs, cf)?;
+            self.set_flag_if_shifted(block, "OF", &rhs, of)?;
+            self.set_flag_if_shifted(
+                block,
+                "ZF",
+                &rhs,
+                Expr::cmpeq(expr.clone(), expr_const(0, expr.bits()))?,
             )?;
-            // Apply mask
-            let cf = Expr::trun(1, Expr::and(cf, non_zero_mask)?)?;
-            block.assign(scalar("CF", 1), cf);
-
-            // OF set to most significant bit of the original operand
-            block.assign(
-                scalar("OF", 1),
-                Expr::trun(
-                    1,
-                    Expr::shr(lhs.clone(), expr_const(lhs.bits() as u64 - 1, lhs.bits()))?,
-                )?,
-            );
-
-            self.set_zf(block, expr.clone())?;
-            self.set_sf(block, expr.clone())?;
+            self.set_flag_if_shifted(block, "SF", &rhs, self.sign_bit(expr.clone())?)?;
 
             self.operand_store(block, &detail.operands[0], expr)?;
 
@@ -3898,12 +3836,18 @@ impl<'s> Semantics<'s> {
         let block_index = {
             let block = control_flow_graph.new_block()?;
 
-            // get operands
+            // get operands; the processor masks the count to 5 (6) bits
             let dst = self.operand_load(block, &detail.operands[0])?;
             let rhs = self.operand_load(block, &detail.operands[1])?;
             let count = self.operand_load(block, &detail.operands[2])?;
 
             let bits = dst.bits();
+            let count = self.shift_count(count, bits)?;
+            let wide_count = Expr::zext(bits * 2, count.clone())?;
+            let wide_count_less_one = Expr::zext(
+                bits * 2,
+                Expr::sub(count.clone(), expr_const(1, count.bits()))?,
+            )?;
             let tmp = Expr::or(
                 Expr::shl(
                     Expr::zext(bits * 2, dst.clone())?,
@@ -3912,30 +3856,25 @@ impl<'s> Semantics<'s> {
                 Expr::zext(bits * 2, rhs)?,
             )?;
 
-            let shifted = Expr::shl(tmp.clone(), Expr::zext(tmp.bits(), count.clone())?)?;
+            let shifted = Expr::shl(tmp.clone(), wide_count)?;
             // Extract the high bits (the SHLD result)
             let result = Expr::trun(bits, Expr::shr(shifted, expr_const(bits as u64, bits * 2))?)?;
 
             // CF = last bit shifted out = MSB of (tmp << (count-1))
-            let cf_shifted = Expr::shl(
-                tmp.clone(),
-                Expr::zext(
-                    tmp.bits(),
-                    Expr::sub(count.clone(), expr_const(1, count.bits()))?,
-                )?,
-            )?;
-            let cf = Expr::trun(
-                1,
-                Expr::shr(
-                    cf_shifted.clone(),
-                    expr_const(cf_shifted.bits() as u64 - 1, cf_shifted.bits()),
-                )?,
-            )?;
+            let cf = self.sign_bit(Expr::shl(tmp, wide_count_less_one)?)?;
 
-            block.assign(scalar("CF", 1), cf);
-
-            self.set_zf(block, result.clone())?;
-            self.set_sf(block, result.clone())?;
+            // a masked count of zero leaves every flag alone; OF (count==1) is
+            // set when the sign changed
+            let of = Expr::xor(self.sign_bit(dst)?, self.sign_bit(result.clone())?)?;
+            self.set_flag_if_shifted(block, "CF", &count, cf)?;
+            self.set_flag_if_shifted(block, "OF", &count, of)?;
+            self.set_flag_if_shifted(
+                block,
+                "ZF",
+                &count,
+                Expr::cmpeq(result.clone(), expr_const(0, result.bits()))?,
+            )?;
+            self.set_flag_if_shifted(block, "SF", &count, self.sign_bit(result.clone())?)?;
 
             self.operand_store(block, &detail.operands[0], result)?;
 
@@ -3954,12 +3893,18 @@ impl<'s> Semantics<'s> {
         let block_index = {
             let block = control_flow_graph.new_block()?;
 
-            // get operands
+            // get operands; the processor masks the count to 5 (6) bits
             let dst = self.operand_load(block, &detail.operands[0])?;
             let rhs = self.operand_load(block, &detail.operands[1])?;
             let count = self.operand_load(block, &detail.operands[2])?;
 
             let bits = dst.bits();
+            let count = self.shift_count(count, bits)?;
+            let wide_count = Expr::zext(bits * 2, count.clone())?;
+            let wide_count_less_one = Expr::zext(
+                bits * 2,
+                Expr::sub(count.clone(), expr_const(1, count.bits()))?,
+            )?;
             let tmp = Expr::or(
                 Expr::zext(bits * 2, dst.clone())?,
                 Expr::shl(
@@ -3968,26 +3913,25 @@ impl<'s> Semantics<'s> {
                 )?,
             )?;
 
-            let shifted = Expr::shr(tmp.clone(), Expr::zext(tmp.bits(), count.clone())?)?;
+            let shifted = Expr::shr(tmp.clone(), wide_count)?;
             // Extract the low bits (the SHRD result)
             let result = Expr::trun(bits, shifted)?;
 
-            // CF = last bit shifted out (trun(1) is correct for right shift)
-            let cf = Expr::trun(
-                1,
-                Expr::shr(
-                    tmp.clone(),
-                    Expr::zext(
-                        tmp.bits(),
-                        Expr::sub(count.clone(), expr_const(1, count.bits()))?,
-                    )?,
-                )?,
+            // CF = last bit shifted out = LSB of (tmp >> (count-1))
+            let cf = Expr::trun(1, Expr::shr(tmp, wide_count_less_one)?)?;
+
+            // a masked count of zero leaves every flag alone; OF (count==1) is
+            // set when the sign changed
+            let of = Expr::xor(self.sign_bit(dst)?, self.sign_bit(result.clone())?)?;
+            self.set_flag_if_shifted(block, "CF", &count, cf)?;
+            self.set_flag_if_shifted(block, "OF", &count, of)?;
+            self.set_flag_if_shifted(
+                block,
+                "ZF",
+                &count,
+                Expr::cmpeq(result.clone(), expr_const(0, result.bits()))?,
             )?;
-
-            block.assign(scalar("CF", 1), cf);
-
-            self.set_zf(block, result.clone())?;
-            self.set_sf(block, result.clone())?;
+            self.set_flag_if_shifted(block, "SF", &count, self.sign_bit(result.clone())?)?;
 
             self.operand_store(block, &detail.operands[0], result)?;
 
